@@ -39,7 +39,10 @@ class Operator(Token):
             )
         left, right = self.left.solve(), self.right.solve()
         try:
-            return self.solve_operand(left, right)
+            result = self.solve_operand(left, right)
+            if isinstance(result, float) and result.is_integer():
+                result = int(result)
+            return result
         except ZeroDivisionError:
             raise DivideByZeroError(self.stack)
         except (TypeError, ArithmeticError):
